@@ -3,7 +3,7 @@
 import ast
 
 from .. import tables
-from ..canon import single_assignments
+from ..canon import canon, cexpr, single_assignments
 from ..pat import find_expr, find_stmt, match_expr, match_stmt
 from ..pm import src
 from ..q import FA, attr_stores, call_name, guard_facts, ifs_on, is_self_attr, walk_no_nested
@@ -90,7 +90,7 @@ def run(ctx):
                     if isinstance(t, ast.Attribute) and t.attr in ("samples",) and src(t.value) in ("self.training_samples", "self.iid_samples"):
                         ctx.ob("R-WRITERS", "C04.2", f, "code outside the store never replaces its samples array", False, f"`{src(st)[:80]}`", node=st)
     ctx.require(ext >= 4, "external logQ/logW stores not found")
-    ctx.floor("C04.2", 8)
+    ctx.floor("C04.2", 7)  # (the np.delete instance is optional: slicing the index array is the same operation)
 
     # ---- C04.3 co-update of the index sets ------------------------------------------------
     ns_st = [aa.cfg.id_of(n) for n, b in find_stmt("self.nested_samples_indices = $v", ad.node)]
@@ -98,46 +98,70 @@ def run(ctx):
     after = aa.cfg.id_of(ins_q[0][0]) if ins_q else None
     okc = after is not None and aa.cfg.every_exit_path_passes(after, ns_st) and aa.cfg.every_exit_path_passes(after, lp_st) and all(aa.cfg.can_follow(after, x) for x in ns_st + lp_st)
     ctx.ob("R-ORDER", "C04.3", ad, "every path that inserts rows re-derives both the discarded and the live index set afterwards", okc, f"{len(ns_st)} + {len(lp_st)} index-set assignments")
-    strict = find_stmt("if self.strict_threshold:\n    $$n = sum(self.samples['logL'] < self.log_likelihood_threshold)\n    $$i = arange(len(self.samples))\n    self.nested_samples_indices = $$i[:$$n]\n    self.live_points_indices = $$i[$$n:]\nelse:\n    $_rest", ad.node)
-    sa_ = ifs_on(ad.node, "self.strict_threshold")
-    oks = False
-    if len(sa_) == 1:
-        body = sa_[0][1]
-        b1 = match_stmt("$$n = sum(self.samples['logL'] < self.log_likelihood_threshold)", body[0]) if len(body) == 4 else None
-        if b1 is not None:
-            b2 = match_stmt("$$i = arange(len(self.samples))", body[1])
-            oks = b2 is not None and match_stmt("self.nested_samples_indices = $$i[:$$n]", body[2], {**b1, **b2}) is not None and match_stmt("self.live_points_indices = $$i[$$n:]", body[3], {**b1, **b2}) is not None
-    ctx.ob("R-LIN", "C04.3", ad, "strict threshold: the two index sets are the complementary prefix / suffix of arange(size), split at the number of samples below the threshold", oks, "")
-    # soft branch: remap through the complement of the new positions
-    soft = sa_[0][2] if len(sa_) == 1 else []
-    newpos = find_stmt("$$new = $$i + arange(len($$i))", ad.node)
-    # accepted idioms for the positions of the already stored samples after the insertion:
-    #  (a) the complement of the new positions;  (b) old rank + number of new samples inserted before it, which with
-    #      left-sided insertion positions is searchsorted(new logL, old logL, side='right') taken before the insertion
-    idiom_a = find_stmt("$$old = get_inverse_indices(self.samples.size, $$new)", ad.node)
-    idiom_b = []
+    # ---- add_samples, read from its path summaries: what each path leaves in the two index sets ----------------------
+    from ..summ import summarise as _summ2, guard_texts as _gt2
+    from ..canon import canon_node as _cn
+    ad_paths = [pa_ for pa_ in _summ2(ad.node) if pa_.end != "raise"]
+    oks = okm = okmerge = ok_none = False
     why_b = ""
-    for n_, b in find_stmt("$$old = arange($$n, dtype=int) + $$shift", ad.node) + find_stmt("$$old = arange($$n) + $$shift", ad.node):
-        sh = find_stmt("$$shift = searchsorted(samples['logL'], self.samples['logL'], side='right')", ad.node, {"shift": b["shift"]})
-        sh_left = find_stmt("$$shift = searchsorted(samples['logL'], self.samples['logL'])", ad.node, {"shift": b["shift"]})
-        nn = find_stmt("$$n = self.samples.size", ad.node, {"n": b["n"]})
-        if sh and nn and ins_s and aa.dominates(aa.cfg.id_of(sh[0][0]), aa.cfg.id_of(ins_s[0][0])) and aa.dominates(aa.cfg.id_of(nn[0][0]), aa.cfg.id_of(ins_s[0][0])):
-            idiom_b.append(b)
-        elif sh_left:
-            why_b = "old positions are shifted by searchsorted(new, old) with the default left side, but new samples are inserted *before* equal stored samples: with ties the shift must count new samples <= the stored one (side='right')"
-    remap = idiom_a or idiom_b
-    oldname = remap[0][1]["old"] if idiom_a else (idiom_b[0]["old"] if idiom_b else None)
-    okm = len(newpos) == 1 and len(remap) == 1 and oldname is not None \
-        and len(find_stmt("self.nested_samples_indices = $$old[self.nested_samples_indices]", ad.node, {"old": oldname})) == 1 and len(find_stmt("self.live_points_indices = $$old[self.live_points_indices]", ad.node, {"old": oldname})) == 1
-    ctx.ob("R-LIN", "C04.3", ad, "soft threshold: positions after insertion are searchsorted index + rank; old indices are remapped through the complement of the new positions (or the equivalent right-sided shift)", okm, why_b)
-    b = find_stmt("$$new = $$i + arange(len($$i))", ad.node)
-    if b and idx:
-        ctx.ob("R-LIN", "C04.3", ad, "the remapping uses the same searchsorted positions that were used for the insertion", src(b[0][1]["i"]) == src(idx[0][1]["i"]), "")
-    inl_ad = single_assignments(ad.node)
-    okmerge = len([1 for n_, b_ in find_stmt("self.live_points_indices = $v", ad.node) if match_expr("insert(self.live_points_indices, searchsorted(self.live_points_indices, $new), $new)", b_["v"], inline=inl_ad) is not None]) == 1
-    ctx.ob("R-LIN", "C04.3", ad, "new positions are merged into the live index set at searchsorted positions (keeps it increasing), or become the live set when there was none", okmerge and len(find_stmt("self.live_points_indices = $$new", soft[0] if False else ad.node)) >= 1, "")
-    chk = [n for n in walk_no_nested(ad.node) if isinstance(n, ast.If) and "len(" in src(n.test) and "self.samples.size - samples.size" in src(n.test) and any(isinstance(x, ast.Raise) for x in n.body)]
-    ctx.ob("R-ORDER", "C04.3", ad, "the remapped index array is checked to have exactly (new size - batch size) entries before it is used", len(chk) == 1, "")
+    n_strict = n_soft = 0
+    for pa_ in ad_paths:
+        g_ = dict(_gt2(pa_, canon))
+        news_ = pa_.env.get("self.samples")
+        b0 = match_expr("insert(self.samples, $idx, $batch)", news_) if news_ is not None else None
+        if b0 is None or match_expr("searchsorted(self.samples['logL'], $batch['logL'])", b0["idx"], b0) is None:
+            continue
+        bb_ = {"idx": _cn(b0["idx"]), "batch": _cn(b0["batch"]), "news": _cn(news_)}
+        nest_, live_ = pa_.env.get("self.nested_samples_indices"), pa_.env.get("self.live_points_indices")
+        if g_.get("self.strict_threshold") is True:
+            n_strict += 1
+            oks = nest_ is not None and live_ is not None and match_expr("arange(sum($news['logL'] < self.log_likelihood_threshold))", nest_, bb_) is not None and (match_expr("arange(sum($news['logL'] < self.log_likelihood_threshold), len($news))", live_, bb_) is not None or match_expr("arange(sum($news['logL'] < self.log_likelihood_threshold), $news.size)", live_, bb_) is not None)
+        elif g_.get("self.strict_threshold") is False:
+            n_soft += 1
+            # positions of the new rows after the insertion, and of the rows that were already stored
+            newpos_pats = ("$idx + arange(len($idx))", "$idx + arange($idx.size)", "$idx + arange($batch.size)", "$idx + arange(len($batch))")
+            old_ = None
+            if nest_ is not None:
+                bo = match_expr("$old[self.nested_samples_indices]", nest_)
+                old_ = bo["old"] if bo else None
+            ok_old = False
+            if old_ is not None:
+                for np_ in newpos_pats:
+                    for sz_ in ("$news.size", "len($news)"):
+                        if match_expr(f"get_inverse_indices({sz_}, {np_})", old_, bb_) is not None:
+                            ok_old = True
+                # the equivalent right-sided shift: old rank + number of new rows inserted before it
+                for n_txt in ("self.samples.size", "len(self.samples)"):
+                    for ar_ in (f"arange({n_txt})", f"arange({n_txt}, dtype=int)"):
+                        if match_expr(f"{ar_} + searchsorted($batch['logL'], self.samples['logL'], side='right')", old_, bb_) is not None:
+                            ok_old = True
+                        elif match_expr(f"{ar_} + searchsorted($batch['logL'], self.samples['logL'])", old_, bb_) is not None:
+                            why_b = "old positions are shifted by searchsorted(new, old) with the default left side, but new samples are inserted *before* equal stored samples: with ties the shift must count new samples <= the stored one (side='right')"
+            okm_path = ok_old
+            bb2 = dict(bb_)
+            if old_ is not None:
+                bb2["old"] = _cn(old_)
+            if g_.get("self.live_points_indices is None") is True:
+                ok_none = live_ is not None and any(match_expr(np_, live_, bb_) is not None for np_ in newpos_pats)
+                okm_path = okm_path and ok_none
+            elif g_.get("self.live_points_indices is None") is False:
+                okmerge = live_ is not None and old_ is not None and any(match_expr(f"insert($old[self.live_points_indices], searchsorted($old[self.live_points_indices], {np_}), {np_})", live_, bb2) is not None for np_ in newpos_pats)
+                okm_path = okm_path and okmerge
+            okm = okm_path if n_soft == 1 else (okm and okm_path)
+    ctx.ob("R-LIN", "C04.3", ad, "strict threshold: the two index sets are the complementary prefix / suffix of arange(size), split at the number of samples below the threshold", oks and n_strict == 1, f"{n_strict} strict path(s)")
+    ctx.ob("R-LIN", "C04.3", ad, "soft threshold: positions after insertion are searchsorted index + rank; old indices are remapped through the complement of the new positions (or the equivalent right-sided shift)", okm and n_soft == 2, why_b or f"{n_soft} soft path(s)")
+    ctx.ob("R-LIN", "C04.3", ad, "new positions are merged into the live index set at searchsorted positions (keeps it increasing), or become the live set when there was none", okmerge and ok_none, "")
+    # a path that raises exactly when the remapped index array does not have (new size - batch size) entries
+    chk = []
+    from ..q import conjuncts as _conj
+    for pa_ in _summ2(ad.node):
+        if pa_.end == "raise":
+            for t0_, tr0_ in pa_.guards:
+                for e_, tr_ in _conj(t0_, tr0_):
+                    tt_ = _szc(e_)
+                    if ("len(get_inverse_indices(" in tt_ or "len(arange(" in tt_) and (("==" in tt_ and tr_ is False) or ("!=" in tt_ and tr_ is True)) and "- len(" in tt_:
+                        chk.append(tt_)
+    ctx.ob("R-ORDER", "C04.3", ad, "the remapped index array is checked to have exactly (new size - batch size) entries before it is used", len(chk) == 1, f"{len(chk)} raising path(s) guarded by the size test")
     gi = ctx.fn("nessai.utils.structures:get_inverse_indices")
     okg = len(find_stmt("$$v = arange(n, dtype=int)", gi.node)) == 1 and len(find_stmt("return $$v[~isin($$v, indices)]", gi.node)) == 1 and any(isinstance(x, ast.Raise) for x in walk_no_nested(gi.node))
     ctx.ob("R-SIB", "C04.3", gi, "get_inverse_indices returns arange(n) without the given indices (ascending), rejecting out-of-range input", okg, "")
@@ -148,10 +172,29 @@ def run(ctx):
     ctx.ob("R-WRITERS", "C04.3", OS_, "the discarded index set is assigned only by the constructor, add_samples (remap / strict split) and add_to_nested_samples (merge)", set(growers) <= {"__init__", "add_samples", "add_to_nested_samples"}, f"{sorted(set(growers))}")
     rm = m["remove_samples"]
     ra = FA(rm)
-    rep = find_stmt("if self.replace_all:\n    $$n = len(self.live_points_indices)\n    self.add_to_nested_samples(self.live_points_indices)\n    self.live_points_indices = None\nelse:\n    $$n = sum(self.live_points['logL'] < self.log_likelihood_threshold)\n    self.add_to_nested_samples(self.live_points_indices[:$$n])\n    self.live_points_indices = delete(self.live_points_indices, s_[:$$n])", rm.node)
-    ctx.ob("R-LIN", "C04.3", rm, "removal: the first n live indices (n = live samples strictly below the threshold; all of them in replace-all mode) move to the discarded set and leave the live set", len(rep) == 1, "")
-    rets = [n for n in walk_no_nested(rm.node) if isinstance(n, ast.Return)]
-    ctx.ob("R-LIN", "C04.3", rm, "the reported number removed is that n", len(rets) == 1 and rep and src(rets[0].value) == src(rep[0][1]["n"]), "")
+    # read from the path summaries of remove_samples (guards taken, final value of the live index set, the indices
+    # handed to add_to_nested_samples, the returned count) - independent of locals, early returns and arm order
+    from ..summ import summarise as _summ, guard_texts as _gt
+    import re as _re
+
+    L_ = "self.live_points_indices"
+    NB_ = cexpr("sum(self.live_points['logL'] < self.log_likelihood_threshold)")
+    ok_all = ok_thr = False
+    ret_ok = True
+    paths_ = [pa_ for pa_ in _summ(rm.node) if pa_.end != "raise"]
+    for pa_ in paths_:
+        g_ = dict(_gt(pa_, canon))
+        moved_ = [canon(e_[1].args[0]) for e_ in pa_.effects if e_[0] == "call" and canon(e_[1].func) == "self.add_to_nested_samples" and e_[1].args]
+        live_ = _szc(pa_.env[L_]) if L_ in pa_.env else None
+        ret_ = _szc(pa_.ret) if pa_.ret is not None else None
+        if g_.get("self.replace_all") is True:
+            ok_all = moved_ == [L_] and live_ == "None"
+            ret_ok = ret_ok and ret_ == f"len({L_})"
+        elif g_.get("self.replace_all") is False:
+            ok_thr = moved_ == [f"{L_}[:{NB_}]"] and live_ == f"{L_}[{NB_}:]"
+            ret_ok = ret_ok and ret_ == NB_
+    ctx.ob("R-LIN", "C04.3", rm, "removal: the first n live indices (n = live samples strictly below the threshold; all of them in replace-all mode) move to the discarded set and leave the live set", len(paths_) == 2 and ok_all and ok_thr, f"{len(paths_)} paths")
+    ctx.ob("R-LIN", "C04.3", rm, "the reported number removed is that n", len(paths_) == 2 and ret_ok, "")
     fi = m["finalise"]
     ctx.ob("R-ORDER", "C04.3", fi, "finalisation moves every remaining live index to the discarded set, then empties the live set", len(find_stmt("self.add_to_nested_samples(self.live_points_indices)", fi.node)) == 1 and len(find_stmt("self.live_points = None", fi.node)) == 1, "")
     lps = c.setters.get("live_points")
@@ -207,6 +250,22 @@ def _stmt_of(fnode, node):
             if best is None or s.lineno >= best.lineno:
                 best = s
     return best
+
+
+
+class _SizeToLen(ast.NodeTransformer):
+    def visit_Attribute(self, n):
+        self.generic_visit(n)
+        if n.attr == "size" and isinstance(n.ctx, ast.Load):
+            return ast.Call(func=ast.Name(id="len", ctx=ast.Load()), args=[n.value], keywords=[])
+        return n
+
+
+def _szc(e):
+    """canonical text of an expression with `X.size` written as `len(X)` (the store's arrays are one-dimensional)"""
+    import copy as _copy
+
+    return canon(_SizeToLen().visit(_copy.deepcopy(e))) if e is not None else None
 
 
 CLAIM = {
